@@ -52,6 +52,34 @@ Theorem C07_deliveries_tcp : forall (dec : bytes -> dres) (c : cfg) (st : tstate
 Proof. exact tcp_recv_gate. Qed.
 Print Assumptions C07_deliveries_tcp.
 
+(* with the PDU-length rule of the protocol ([spec_pdu_len]: fixed size or byte count per function
+   code and direction): PARTIAL — under the hypothesis that the decoder in use rejects PDUs of the
+   wrong length, every delivery additionally carries a PDU of exactly the defined length.  The
+   hypothesis is forced: the real decoders tolerate trailing / missing bytes for several classes
+   (open finding F-C07-tcp-wrong-length-pdu-accepted); the framer itself checks no PDU length. *)
+Definition C07_deliveries_tcp_pdu_len_full_statement : Prop :=
+  forall (dec : bytes -> dres) (server : bool) (c : cfg) (st : tstate) (chunk : bytes) st' ds o,
+  wfb (t_buf st) = true -> wfb chunk = true -> t_recv base tcp dec c st chunk = (st', ds, o) ->
+  Forall (fun d => pdu_len_ok server (d_pdu d) = true) ds.
+Theorem C07_deliveries_tcp_pdu_len_partial :
+  forall (dec : bytes -> dres) (server : bool) (c : cfg) (st : tstate) (chunk : bytes) st' ds o,
+  (forall pdu, is_msg (dec pdu) = true -> pdu_len_ok server pdu = true) ->
+  wfb (t_buf st) = true -> wfb chunk = true ->
+  t_recv base tcp dec c st chunk = (st', ds, o) ->
+  Forall (fun d => tcp_justified (t_buf st ++ chunk) d /\ pdu_len_ok server (d_pdu d) = true) ds.
+Proof. exact tcp_recv_gate_len. Qed.
+Print Assumptions C07_deliveries_tcp_pdu_len_partial.
+
+(* ... and refuted without it: a ReadExceptionStatus request (1-byte PDU) with length field 6 *)
+Theorem C07_tcp_pdu_len_refuted : exists dec c chunk st' d,
+  t_recv base tcp dec c (t_init tcp) chunk = (st', [d], Done) /\ pdu_len_ok true (d_pdu d) = false.
+Proof.
+  exists (fun _ => DMsg 7), {| c_units := [1]; c_single := Some false |},
+         [0; 1; 0; 0; 0; 6; 1; 7; 0; 2; 0; 0; 0; 6; 1; 3]%N.
+  eexists. eexists. vm_compute. split; reflexivity.
+Qed.
+Print Assumptions C07_tcp_pdu_len_refuted.
+
 (* the input that used to produce a bogus delivery (7 bytes, first byte >= 0x80) is now just buffered *)
 Theorem C07_tcp_fixed_witness :
   t_recv base tcp (fun _ => DMsg 128) {| c_units := [1]; c_single := Some false |} (t_init tcp)
